@@ -39,9 +39,15 @@ def main():
             "level_note": ("Trusted: Lean kernel; axioms propext / Classical.choice / Quot.sound only (audited per run); "
                            "hand-written model tied to the code by the correspondence harness (bounded, generator "
                            "quality bounds what it sees); NumPy/SciPy as libraries. " +
+                           ("Parts of the model are REGENERATED from the source tree on every run by the translators "
+                            "(lean/PyribsGen/: formulas, decision logic of the transforms, dispatch loops, tell traces, "
+                            "RNG sites) and proved equal to the hand-written model (DESIGN.md 7.7): a source change "
+                            "that alters them breaks a proof obligation. " if hasattr(mod, "translate") else "") +
                            " ".join("Partial: " + p for p in getattr(mod, "PARTIAL", []))),
             "technique": getattr(mod, "TECHNIQUE", "Lean 4 machine-checked proof over an executable model + "
-                                 "lock-step correspondence with the implementation"),
+                                 "lock-step correspondence with the implementation") +
+            (" + source-to-Lean translation of the anchored formulas / decision logic re-proved on every run"
+             if hasattr(mod, "translate") and "translat" not in getattr(mod, "TECHNIQUE", "") else ""),
         })
     manifest = {
         "version": 1,
